@@ -406,7 +406,7 @@ func ParseRaceLog(text string) []RaceReport {
 					break
 				}
 				if strings.HasPrefix(l, modPrefix) {
-					fn := strings.TrimPrefix(strings.TrimPrefix(l, modPrefix), "/")
+					fn := strings.TrimPrefix(strings.TrimPrefix(strings.TrimPrefix(l, modPrefix), "/"), ".")
 					if k := strings.LastIndex(fn, "("); k > 0 && strings.HasSuffix(fn, ")") && !strings.HasSuffix(fn[:k], ".") {
 						if fn[k:] == "()" {
 							fn = fn[:k]
